@@ -1,6 +1,8 @@
 package engines
 
 import (
+	"os"
+	"runtime/debug"
 	"context"
 	"errors"
 	"fmt"
@@ -25,6 +27,7 @@ import (
 //   run <k>...                      one incremental.Run with these roots
 //   runc <k,k|k,k|...>              concurrent Runs (one goroutine each)
 //   runw <k> <a,b> <c,d>            Run(a,b) is held inside Execute of k until Run(c,d) is parked waiting; then k proceeds
+//   runp <k> <r>...                 Run(k, r...) with Execute of k held until the other queries' leaders are parked in acquire
 //   dump                            task table (deps / callers / state)
 //   permits                         can all p permits be acquired?
 //
@@ -264,11 +267,14 @@ type incrRunOut struct {
 }
 
 // doRun performs one Run under recover.
-func (e *incrEngine) doRun(roots []int) *incrRunOut {
-	out := &incrRunOut{roots: roots, obs: &incrRunObs{seen: map[int][2]bool{}}}
+func (e *incrEngine) doRun(roots []int) (out *incrRunOut) {
+	out = &incrRunOut{roots: roots, obs: &incrRunObs{seen: map[int][2]bool{}}}
 	defer func() {
 		if r := recover(); r != nil {
 			out.paniced = Canon(fmt.Sprint(r))
+			if os.Getenv("INCR_DEBUG") != "" {
+				os.Stderr.Write(debug.Stack())
+			}
 		}
 	}()
 	qs := make([]incremental.Query[int64], len(roots))
@@ -580,8 +586,8 @@ func (e *incrEngine) dump() string {
 	return "tasks " + strings.Join(parts, " ")
 }
 
-// incrParkedCount counts the goroutines blocked in the select of (*task).waitUntilDone.
-func incrParkedCount() int {
+// incrParkedIn counts the goroutines blocked in a select inside the given function.
+func incrParkedIn(fn string) int {
 	buf := make([]byte, 1<<20)
 	for {
 		n := runtime.Stack(buf, true)
@@ -593,12 +599,15 @@ func incrParkedCount() int {
 	}
 	c := 0
 	for _, g := range strings.Split(string(buf), "\n\n") {
-		if strings.Contains(g, "(*task).waitUntilDone") && strings.Contains(g, "[select") {
+		if strings.Contains(g, fn) && strings.Contains(g, "[select") {
 			c++
 		}
 	}
 	return c
 }
+
+// incrParkedCount counts the goroutines blocked in the select of (*task).waitUntilDone.
+func incrParkedCount() int { return incrParkedIn("(*task).waitUntilDone") }
 
 // incrWaitParked polls until more than base goroutines are parked in waitUntilDone
 // (goroutines stranded by earlier cases stay parked for ever) or the deadline passes.
@@ -773,6 +782,52 @@ func (e *incrEngine) Exec(op string) string {
 				}()
 			}
 		})
+		e.w.mu.Lock()
+		e.w.gateCh = nil
+		e.w.mu.Unlock()
+		return ans
+	case "runp":
+		// Run(k, others...): Execute of k (the synchronous first query) is held until the goroutines
+		// of all the other queries are leaders parked in Task.acquire; then k proceeds (and panics)
+		if len(w) < 3 {
+			return "bad-op"
+		}
+		var roots []int
+		for _, s := range w[1:] {
+			k, err := strconv.Atoi(s)
+			if err != nil || k < 0 || e.w.nodes[k] == nil {
+				return "bad-op"
+			}
+			roots = append(roots, k)
+		}
+		e.w.mu.Lock()
+		e.w.gateKey = roots[0]
+		e.w.gateCh = make(chan struct{})
+		e.w.gateStarted = make(chan struct{}, 1)
+		gate, started := e.w.gateCh, e.w.gateStarted
+		e.w.mu.Unlock()
+		base := incrParkedIn("(*Task).acquire")
+		want := base + len(roots) - 1
+		go func() {
+			select {
+			case <-started:
+			case <-time.After(incrWatchdog / 2):
+			}
+			for deadline := time.Now().Add(incrWatchdog / 3); time.Now().Before(deadline); {
+				if incrParkedIn("(*Task).acquire") >= want {
+					break
+				}
+				time.Sleep(200 * time.Microsecond)
+			}
+			e.w.mu.Lock()
+			select {
+			case <-gate:
+			default:
+				close(gate)
+			}
+			e.w.mu.Unlock()
+		}()
+		ans := e.runGroup([][]int{roots}, true, false, nil)
 		e.w.mu.Lock()
 		e.w.gateCh = nil
 		e.w.mu.Unlock()
@@ -1182,6 +1237,10 @@ func (e *incrEngine) genFail(r *Rand, tier string) [][]string {
 		[]string{"new 2", "def 0 e", "def 1 ep a0", "def 2 - a1", "set 1 1", "runw 1 1 2", "permits", "run 2", "dump"},
 		[]string{"new 2", "def 0 e", "def 1 - a0 a2", "def 2 - a1", "runw 1 1 2", "dump", "permits"},
 		[]string{"new 1", "def 0 eq", "def 1 - a0", "runw 0 0 1", "permits"},
+		// leaders parked in acquire when the synchronous query panics (parallelism 1): they give up
+		// without withdrawing their pending results; the next run that needs one never returns
+		[]string{"new 1", "def 0 eq", "def 1 e", "def 2 e", "def 3 - a1", "runp 0 1 2", "permits", "dump", "run 2"},
+		[]string{"new 1", "def 0 eq", "def 1 e", "def 2 e", "def 3 - a1", "runp 0 2 3", "permits", "dump", "run 1", "dump", "set 0 1", "run 0", "run 3"},
 		// parallel class: diamonds with a back edge, several roots, concurrent Runs
 		[]string{"new 1", "def 0 e", "def 1 - a0,3", "def 2 - a0", "def 3 - a1,2", "run 3 2", "permits", "runc 1|3,2", "permits", "evict 0", "run 0 1 2 3", "permits"},
 		[]string{"new 4", "def 0 ep", "def 1 - a0,2", "def 2 - a0", "def 3 - a1,2", "run 3 1", "permits", "new 4", "set 0 1", "run 3 1", "permits"},
